@@ -173,8 +173,196 @@ def run(tier, seed):
     for ob in obligations:
         if ob.get("verdict") == "violation":
             replay_native(ob)
+    n = 2 if tier == "quick" else 3
+    ob2 = {"engine": "smt", "harness": "s05_2_actor_history", "encodes_files": FILES,
+           "encodes": ["Handler<RaftIndexRequest>::handle", "RaftIndexManager::{write_hard_state,write_member,add_node_addr,write_logs,write_last_applied_log,write_index,load_index_info}",
+                       "RaftIndexInnerManager::{init,write_index,write_last_applied_log,flush}", "RaftIndex/LogRange/NodeAddrItem generated message code"],
+           "bound": "every sequence of %d requests over {SaveHardState(term < 2^14, vote < 2^7), SaveMember [1,2] + addresses, SaveMember [1] joint [1,3], AddNodeAddr 3, SaveLogs(one range), "
+                    "SaveLastAppliedLog(< 2^59)}; observed after every request in the same process and once after a restart; the actor future "
+                    "(async block .into_actor().map().wait()) is run to completion at the call (wait() blocks the mailbox)" % n,
+           "queries": 0, "solver_s": 0.0, "distinct": 0}
+    try:
+        ts = time.time()
+        viol, npaths, nq, covers, opaque = actor_history(prog, n)
+        ob2["solver_s"] = round(time.time() - ts, 1)
+        ob2["queries"] = nq
+        ob2["sample"] = {"paths_explored": npaths, "covers": covers, "opaque_symbols": opaque[:20]}
+        missing = [c for c in ("two hard-state saves in a row", "restart") if not covers.get(c)]
+        if viol:
+            ob2.update({"verdict": "violation", "message": viol["message"], "tags": viol["tags"], "counterexample": viol["model"]})
+            from lib import native
+            path = native.write_replay("C05", "c05", "model", [], {"engine": "smt", "mode": "model-only", "obligation": "s05_2_actor_history", "message": viol["message"], "model": viol["model"]})
+            ob2["replay_path"] = path
+            ob2["replay"] = {"path": path, "outcome": "model-only", "message": "request history for the RaftIndexManager actor"}
+        elif missing:
+            ob2.update({"verdict": "inconclusive", "message": "reachability witness never reached: %s" % missing})
+        else:
+            ob2.update({"verdict": "discharged", "distinct": npaths})
+    except rsparse.Unsupported as e:
+        ob2.update({"verdict": "inconclusive", "message": "encoder met source it cannot encode: %s" % e})
+    obligations.append(ob2)
     info["wall_s"] = round(time.time() - t0, 1)
     return {"obligations": obligations, "info": info}
+
+
+def actor_history(prog, nsteps):
+    """s05_2: the RaftIndexManager actor (Handler<RaftIndexRequest> and the write_* methods that funnel into write_index) driven by every
+    sequence of nsteps save requests; the state reported in the same process (LoadIndexInfo) and after a restart (init of the same file)
+    must be the one of the last acknowledged save of each field"""
+    it, fs = make(prog)
+
+    def into_actor(interp, recv, args):
+        return Struct("ActorFut", {"v": recv, "act": args[0]})
+    it.models[(None, "into_actor")] = into_actor
+
+    def fut_map(interp, recv, args):
+        interp.call_value(args[0], [recv["v"], recv["act"], "ctx"])
+        return recv
+    it.models[("ActorFut", "map")] = fut_map
+    it.models[("ActorFut", "wait")] = lambda interp, recv, args: ()
+    it.models[("ActorFut", "spawn")] = lambda interp, recv, args: ()
+    init_fn = prog.methods[("RaftIndexInnerManager", "init")]
+    handle = prog.trait_method("RaftIndexManager", "handle", "RaftIndexRequest")
+    step = [z3.BitVec("req%d" % i, 8) for i in range(nsteps)]
+    terms = [z3.BitVec("term%d" % i, 64) for i in range(nsteps)]
+    votes = [z3.BitVec("vote%d" % i, 64) for i in range(nsteps)]
+    applied = [z3.BitVec("applied%d" % i, 64) for i in range(nsteps)]
+    rng = [z3.ULT(t, 1 << 14) for t in terms] + [z3.ULT(v, 1 << 7) for v in votes] + [z3.ULT(a, 1 << 59) for a in applied]
+    covers = {}
+
+    def cover(c):
+        covers[c] = covers.get(c, 0) + 1
+
+    def possible(cond):
+        if isinstance(cond, bool):
+            return cond
+        cond = z3.simplify(cond)
+        if z3.is_false(cond):
+            return False
+        if it._feasible(cond):
+            it.pc.append(cond)
+            return True
+        return False
+
+    def differs(a, b):
+        if is_sym_(a) or is_sym_(b):
+            return possible(rseval.to_bv(a) != rseval.to_bv(b))
+        return a != b
+
+    def is_sym_(x):
+        return isinstance(x, z3.ExprRef)
+
+    def compare(ri, last_applied, ref, log, where):
+        if differs(ri["current_term"], ref["term"]):
+            return ("violation", "%s: the term reported differs from the last acknowledged save" % where, log, "term-lost")
+        if differs(ri["voted_for"], ref["vote"]):
+            return ("violation", "%s: the vote reported differs from the last acknowledged save" % where, log, "vote-lost")
+        if list(ri["member"]) != ref["member"]:
+            return ("violation", "%s: membership %s reported, %s was acknowledged" % (where, list(ri["member"]), ref["member"]), log, "member-lost")
+        if list(ri["member_after_consensus"]) != ref["mac"]:
+            return ("violation", "%s: joint membership %s reported, %s was acknowledged" % (where, list(ri["member_after_consensus"]), ref["mac"]), log, "member-lost")
+        if dict(ri["node_addrs"]) != ref["addrs"]:
+            return ("violation", "%s: node addresses %s reported, %s were acknowledged" % (where, dict(ri["node_addrs"]), ref["addrs"]), log, "addr-lost")
+        if [l["start_index"] for l in ri["logs"]] != ref["logs"]:
+            return ("violation", "%s: log catalogue %s reported, %s was saved" % (where, [l["start_index"] for l in ri["logs"]], ref["logs"]), log, "catalogue-lost")
+        if differs(last_applied, ref["applied"]):
+            return ("violation", "%s: last-applied index differs from the last saved one" % where, log, "applied-lost")
+        return None
+
+    def thunk():
+        fs.files.clear()
+        m = it._invoke(init_fn, ["idx"], self_ty="RaftIndexInnerManager")
+        if not (isinstance(m, Enum) and m.variant == "Ok"):
+            return ("violation", "a fresh index file cannot be initialised", [], "init")
+        actor = Struct("RaftIndexManager", {"path": "idx", "lock_file": None, "inner": Some(m.payload[0]), "naming_inner_node_manage": NONE})
+        ref = {"term": 0, "vote": 0, "member": [], "mac": [], "addrs": {}, "logs": [], "applied": 0}
+        log = []
+        for i in range(nsteps):
+            op = None
+            for cand in range(6):
+                if it.branch(step[i] == cand):
+                    op = cand
+                    break
+            if op is None:
+                raise rseval.PathAbort()
+            if op == 0:
+                msg = Enum("RaftIndexRequest", "SaveHardState", {"current_term": terms[i], "voted_for": votes[i]})
+                upd = {"term": terms[i], "vote": votes[i]}
+                log.append(("save-hard-state", "term%d" % i, "vote%d" % i))
+            elif op == 1:
+                msg = Enum("RaftIndexRequest", "SaveMember", {"member": [1, 2], "member_after_consensus": NONE, "node_addr": Some({1: "a:1", 2: "b:2"})})
+                upd = {"member": [1, 2], "addrs": {1: "a:1", 2: "b:2"}}
+                log.append(("save-member", [1, 2], "with addresses"))
+            elif op == 2:
+                msg = Enum("RaftIndexRequest", "SaveMember", {"member": [1], "member_after_consensus": Some([1, 3]), "node_addr": NONE})
+                upd = {"member": [1], "mac": [1, 3]}
+                log.append(("save-member", [1], "joint [1,3]"))
+            elif op == 3:
+                msg = Enum("RaftIndexRequest", "AddNodeAddr", [3, "c:3"])
+                na = dict(ref["addrs"])
+                na[3] = "c:3"
+                upd = {"addrs": na}
+                log.append(("add-node-addr", 3))
+            elif op == 4:
+                st = 5 + i
+                msg = Enum("RaftIndexRequest", "SaveLogs", [[Struct("LogRange", {"id": 1, "pre_term": 0, "start_index": st, "record_count": 0, "split_off_index": st,
+                                                                                  "is_close": False, "mark_remove": False})]])
+                upd = {"logs": [st]}
+                log.append(("save-logs", st))
+            else:
+                msg = Enum("RaftIndexRequest", "SaveLastAppliedLog", [applied[i]])
+                upd = {"applied": applied[i]}
+                log.append(("save-last-applied", "applied%d" % i))
+            r = it._invoke(handle, [actor, msg, "ctx"], self_ty="RaftIndexManager")
+            if not (isinstance(r, Enum) and r.variant == "Ok"):
+                return ("violation", "a save request is answered with an error", log, "save-error")
+            ref.update(upd)
+            if i > 0 and op == 0 and log[-2][0] == "save-hard-state":
+                cover("two hard-state saves in a row")
+            # same process
+            r = it._invoke(handle, [actor, Enum("RaftIndexRequest", "LoadIndexInfo", None), "ctx"], self_ty="RaftIndexManager")
+            if not (isinstance(r, Enum) and r.variant == "Ok" and isinstance(r.payload[0], Enum) and r.payload[0].variant == "RaftIndexInfo"):
+                return ("violation", "the index info cannot be loaded in the running process", log, "load-error")
+            info_ = r.payload[0].payload
+            bad = compare(info_["raft_index"], info_["last_applied_log"], ref, log, "same process, after request %d" % (i + 1))
+            if bad:
+                return bad
+        # restart
+        inner = actor["inner"]
+        if isinstance(inner, Enum) and inner.variant == "Some":
+            it.call_method("RaftIndexInnerManager", "flush", inner.payload[0], [])
+        m2 = it._invoke(init_fn, ["idx"], self_ty="RaftIndexInnerManager")
+        log.append(("restart",))
+        if not (isinstance(m2, Enum) and m2.variant == "Ok"):
+            return ("violation", "the index file does not reopen after a restart", log, "reopen-fails")
+        mm = m2.payload[0]
+        cover("restart")
+        bad = compare(mm["raft_index"], mm["last_applied_log"], ref, log, "after restart")
+        if bad:
+            return bad
+        return ("ok", None, log, None)
+    it.solver.push()
+    it.solver.add(*rng)
+    paths = it.explore(thunk, max_paths=200000)
+    it.solver.pop()
+    s = z3.Solver()
+    s.add(*rng)
+    viol = None
+    for pc, r, exc in paths:
+        if exc is not None:
+            viol = {"message": "panic in the index manager: %s" % exc, "tags": ["panic"], "model": {}}
+            break
+        if r[0] == "violation":
+            s.push()
+            s.add(*pc)
+            if s.check() == z3.sat:
+                m_ = s.model()
+                viol = {"message": r[1], "tags": [r[3]], "model": {"history": [list(map(str, e)) for e in r[2]],
+                        "values": {str(v): m_.eval(v, model_completion=True).as_long() for v in terms + votes + applied}}}
+            s.pop()
+            if viol:
+                break
+    return viol, len(paths), it.queries, covers, sorted(it.opaque_seen)
 
 
 def le(v, n):
